@@ -12,7 +12,7 @@ use wf_harness::{catch, jstr, prng::Rng, silence_panics, toy::ToyDigest};
 use winter_crypto::ElementHasher;
 use winter_fri::{DefaultProverChannel, FriOptions, FriProver};
 use winter_math::{polynom, FieldElement, StarkField};
-use winter_utils::Serializable;
+use winter_utils::{Deserializable, Serializable};
 
 #[derive(Clone, Debug, PartialEq)]
 enum Family { LowDegree, BoundPlus1, BoundPlus2, HighDegree, MaxDegree, Random, Corrupt(usize /* per mille */) }
@@ -242,10 +242,67 @@ fn corr(seed: u64, n: usize) {
 
 fn accepted(v: &str) -> bool { v == "ok" }
 
+/// byte-level malformations of an honest serialized proof (below the decoded level of the model): every one must be
+/// rejected (by `FriProof::read_from_bytes`, the channel or the verifier) and none may panic.  Classes: every kind of
+/// truncation, partition exponent >= usize::BITS, a non-canonical field element in the remainder / in a layer's values,
+/// remainder bytes that are not a whole number of elements, a junk byte after a layer's Merkle nodes.
+fn bytes_malformed<C: Cfg>(r: &mut Rng, i: usize, evals: &std::cell::Cell<u64>, fails: &std::cell::Cell<u64>) {
+    let c = match build_case::<C>(r, i, false, Family::LowDegree, CommitCheat::None, Post::None, false) { Some(c) => c, None => return };
+    if c.d.remainder.is_empty() || !well_formed(&c.p) { return; }
+    let honest = c.d.to_bytes();
+    let eb = <C::E as FieldElement>::ELEMENT_BYTES;
+    let mut variants: Vec<(String, Vec<u8>)> = Vec::new();
+    for k in [0usize, 1, 2, 3, 5, honest.len() / 3, honest.len() / 2, honest.len() - 2, honest.len() - 1] {
+        if k < honest.len() { variants.push((format!("truncated to {} of {} bytes", k, honest.len()), honest[..k].to_vec())); }
+    }
+    let mut b = honest.clone(); *b.last_mut().unwrap() = 64 + (r.below(100) as u8); variants.push(("partition exponent >= 64".into(), b));
+    // remainder: the last (2 + len + 1) bytes are u16 len, bytes, partitions
+    let rem_len = c.d.remainder.len() * eb;
+    let rem_start = honest.len() - 1 - rem_len;
+    let mut b = honest.clone(); for x in b[rem_start..rem_start + eb].iter_mut() { *x = 0xFF; } variants.push(("non-canonical remainder element".into(), b));
+    let mut b = honest.clone(); b.insert(rem_start + rem_len, 7); let l = (rem_len + 1) as u16; b[rem_start - 2..rem_start].copy_from_slice(&l.to_le_bytes());
+    variants.push(("remainder bytes not a whole number of elements".into(), b));
+    if !c.d.layers.is_empty() {
+        // first layer: u8 count, u32 len, values ...
+        let mut b = honest.clone(); for x in b[5..5 + eb].iter_mut() { *x = 0xFF; } variants.push(("non-canonical element in layer values".into(), b));
+        let vlen = c.d.layers[0].0.len() * eb;
+        let ppos = 1 + 4 + vlen; // u32 length of the paths
+        let plen = u32::from_le_bytes([honest[ppos], honest[ppos + 1], honest[ppos + 2], honest[ppos + 3]]) as usize;
+        let mut b = honest.clone(); b.insert(ppos + 4 + plen, 9); b[ppos..ppos + 4].copy_from_slice(&((plen + 1) as u32).to_le_bytes());
+        variants.push(("junk byte after the Merkle nodes of layer 0".into(), b));
+    }
+    for (what, bytes) in variants {
+        evals.set(evals.get() + 1);
+        let v = match catch(AssertUnwindSafe(|| winter_fri::FriProof::read_from_bytes(&bytes))) {
+            Err(_) => "panic".to_string(),
+            Ok(Err(_)) => "deser-err".to_string(),
+            Ok(Ok(p)) => run_verifier::<C>(p, c.commitments.clone(), c.domain_arg, c.p.blowup, c.nfold_arg, c.p.remmax, c.maxdeg, &c.evals, &c.positions),
+        };
+        if v == "ok" || v.contains("panic") {
+            fails.set(fails.get() + 1);
+            println!("{{\"what\":{},\"input\":{},\"expected\":\"an error, no panic\",\"actual\":{}}}", jstr(&format!("malformed proof bytes ({}) {}", what, if v == "ok" { "accepted" } else { "panic" })),
+                jstr(&wf_harness::hex_bytes(&bytes)), jstr(&v));
+        }
+    }
+}
+
 fn falsify(seed: u64, n: usize) {
     let mut r = Rng::new(seed ^ 0x5005);
     let thorough = n >= 5000;
     let (evals, fails) = (std::cell::Cell::new(0u64), std::cell::Cell::new(0u64));
+    for i in 0..(n / 20).max(8) {
+        match i % 4 { 0 => bytes_malformed::<C64>(&mut r, i, &evals, &fails), 1 => bytes_malformed::<C128>(&mut r, i, &evals, &fails),
+                      2 => bytes_malformed::<C64x2>(&mut r, i, &evals, &fails), _ => bytes_malformed::<C128x2>(&mut r, i, &evals, &fails) }
+    }
+    // accessors of FriOptions agree with the constructor arguments
+    for (b, nf, rm) in [(2usize, 2usize, 0usize), (8, 4, 7), (16, 16, 255), (128, 8, 31)] {
+        let o = FriOptions::new(b, nf, rm);
+        evals.set(evals.get() + 1);
+        if o.blowup_factor() != b || o.folding_factor() != nf || o.remainder_max_degree() != rm {
+            fails.set(fails.get() + 1);
+            println!("{{\"what\":\"FriOptions accessors differ from the constructor arguments\",\"input\":\"{} {} {}\",\"expected\":\"same\",\"actual\":\"different\"}}", b, nf, rm);
+        }
+    }
     // far functions with the whole last layer queried
     for i in 0..n {
         let far = i % 3 == 0;
